@@ -70,7 +70,8 @@ def ensure_registered():
 
 def arg_values():
     from prettyprinter import comment
-    return [1, 'x', [1], (1,), {'a': 1}, [], comment(2, 'c'), Call(3, k=[4])]
+    # None and Ellipsis print as shared module-level documents: repeated occurrences are the same object
+    return [1, 'x', [1], (1,), {'a': 1}, [], comment(2, 'c'), Call(3, k=[4]), None, ...]
 
 
 CALLABLES = [('module function', module_fn, 'mc.checks.c17.module_fn'), ('class', Klass, 'mc.checks.c17.Klass'),
@@ -130,7 +131,7 @@ def check_call(fn, fname, args, kwargs, alt, width, part, dump_cache):
 
 def call_cases():
     vals = arg_values()
-    small = vals[:3] + [vals[6]]
+    small = vals[:3] + [vals[6], vals[8], vals[9]]
     arglists = [()] + [(a,) for a in vals] + list(itertools.product(vals, repeat=2)) + list(itertools.product(small, repeat=3))
     kwlists = [[]] + [[('a', v)] for v in vals] + [[('b', v), ('a', u)] for v in small for u in small] + [[('zz', 1), ('a', 2), ('m', 3)]]
     for args in arglists:
@@ -261,6 +262,31 @@ def check_class(lib, mk, fields, variant, idx, part, widths):
             if exp:
                 part.nontrivial += 1
     part.c['classes'] += 1
+    # a *different* class with the same qualified name (a class redefined in a REPL or notebook, or
+    # built twice by a factory): it must be printed by its own definition, not by a remembered one
+    shadow_fields = [(n, k, not rp) for (n, k, rp) in fields] + [('extra', 'default', True)]
+    try:
+        shadow = mk(shadow_fields, variant, idx)
+    except Exception:     # noqa
+        return
+    kwargs = {name: [8] for (name, kind, rp) in shadow_fields}
+    inst = shadow(**kwargs)
+    exp = [name for (name, kind, rp) in shadow_fields if rp]
+    part.n += 1
+    case = {'library': lib, 'fields': [list(f) for f in shadow_fields], 'variant': variant, 'instance': kwargs, 'width': 79,
+            'redefinition_of': [list(f) for f in fields]}
+    r = oracles.run_pformat(inst, width=79)
+    if r.exc is not None or any('raised an exception' in m for m in r.warnings):
+        part.violation('redefined-class-fails', case, {'output': r.text, 'exc': r.exc, 'warning': (r.warnings or [''])[0][-200:]})
+        return
+    try:
+        node = oracles.parse_expr(r.text).body
+        got = [k.arg for k in node.keywords]
+    except Exception as e:     # noqa
+        part.violation('redefined-class-not-parsable', case, {'output': r.text, 'why': repr(e)})
+        return
+    if got != exp:
+        part.violation('redefined-class-printed-with-the-old-definition', case, {'output': r.text, 'expected_keywords': exp})
 
 
 def work(item):
